@@ -88,7 +88,7 @@ def _register_capabilities_hooks(converter: cattrs.Converter) -> cattrs.Converte
             return None
         if isinstance(object_, (bool, int, str, float)):
             return object_
-        if "id" in object_:
+        if "id" in object_ or "documentSelector" in object_:
             return converter.structure(
                 object_, lsp_types.DeclarationRegistrationOptions
             )
@@ -115,7 +115,7 @@ def _register_capabilities_hooks(converter: cattrs.Converter) -> cattrs.Converte
             return None
         if isinstance(object_, (bool, int, str, float)):
             return object_
-        if "id" in object_:
+        if "id" in object_ or "documentSelector" in object_:
             return converter.structure(
                 object_, lsp_types.TypeDefinitionRegistrationOptions
             )
@@ -133,7 +133,7 @@ def _register_capabilities_hooks(converter: cattrs.Converter) -> cattrs.Converte
             return None
         if isinstance(object_, (bool, int, str, float)):
             return object_
-        if "id" in object_:
+        if "id" in object_ or "documentSelector" in object_:
             return converter.structure(
                 object_, lsp_types.ImplementationRegistrationOptions
             )
@@ -192,7 +192,7 @@ def _register_capabilities_hooks(converter: cattrs.Converter) -> cattrs.Converte
             return None
         if isinstance(object_, (bool, int, str, float)):
             return object_
-        if "id" in object_:
+        if "id" in object_ or "documentSelector" in object_:
             return converter.structure(
                 object_, lsp_types.DocumentColorRegistrationOptions
             )
@@ -246,7 +246,7 @@ def _register_capabilities_hooks(converter: cattrs.Converter) -> cattrs.Converte
             return None
         if isinstance(object_, (bool, int, str, float)):
             return object_
-        if "id" in object_:
+        if "id" in object_ or "documentSelector" in object_:
             return converter.structure(
                 object_, lsp_types.FoldingRangeRegistrationOptions
             )
@@ -264,7 +264,7 @@ def _register_capabilities_hooks(converter: cattrs.Converter) -> cattrs.Converte
             return None
         if isinstance(object_, (bool, int, str, float)):
             return object_
-        if "id" in object_:
+        if "id" in object_ or "documentSelector" in object_:
             return converter.structure(
                 object_, lsp_types.SelectionRangeRegistrationOptions
             )
@@ -282,7 +282,7 @@ def _register_capabilities_hooks(converter: cattrs.Converter) -> cattrs.Converte
             return None
         if isinstance(object_, (bool, int, str, float)):
             return object_
-        if "id" in object_:
+        if "id" in object_ or "documentSelector" in object_:
             return converter.structure(
                 object_, lsp_types.CallHierarchyRegistrationOptions
             )
@@ -300,7 +300,7 @@ def _register_capabilities_hooks(converter: cattrs.Converter) -> cattrs.Converte
             return None
         if isinstance(object_, (bool, int, str, float)):
             return object_
-        if "id" in object_:
+        if "id" in object_ or "documentSelector" in object_:
             return converter.structure(
                 object_, lsp_types.LinkedEditingRangeRegistrationOptions
             )
@@ -316,7 +316,7 @@ def _register_capabilities_hooks(converter: cattrs.Converter) -> cattrs.Converte
     ]:
         if object_ is None:
             return None
-        if "id" in object_:
+        if "id" in object_ or "documentSelector" in object_:
             return converter.structure(
                 object_, lsp_types.SemanticTokensRegistrationOptions
             )
@@ -334,7 +334,7 @@ def _register_capabilities_hooks(converter: cattrs.Converter) -> cattrs.Converte
             return None
         if isinstance(object_, (bool, int, str, float)):
             return object_
-        if "id" in object_:
+        if "id" in object_ or "documentSelector" in object_:
             return converter.structure(object_, lsp_types.MonikerRegistrationOptions)
         else:
             return converter.structure(object_, lsp_types.MonikerOptions)
@@ -350,7 +350,7 @@ def _register_capabilities_hooks(converter: cattrs.Converter) -> cattrs.Converte
             return None
         if isinstance(object_, (bool, int, str, float)):
             return object_
-        if "id" in object_:
+        if "id" in object_ or "documentSelector" in object_:
             return converter.structure(
                 object_, lsp_types.TypeHierarchyRegistrationOptions
             )
@@ -368,7 +368,7 @@ def _register_capabilities_hooks(converter: cattrs.Converter) -> cattrs.Converte
             return None
         if isinstance(object_, (bool, int, str, float)):
             return object_
-        if "id" in object_:
+        if "id" in object_ or "documentSelector" in object_:
             return converter.structure(
                 object_, lsp_types.InlineValueRegistrationOptions
             )
@@ -386,7 +386,7 @@ def _register_capabilities_hooks(converter: cattrs.Converter) -> cattrs.Converte
             return None
         if isinstance(object_, (bool, int, str, float)):
             return object_
-        if "id" in object_:
+        if "id" in object_ or "documentSelector" in object_:
             return converter.structure(object_, lsp_types.InlayHintRegistrationOptions)
         else:
             return converter.structure(object_, lsp_types.InlayHintOptions)
@@ -410,7 +410,7 @@ def _register_capabilities_hooks(converter: cattrs.Converter) -> cattrs.Converte
     ]:
         if object_ is None:
             return None
-        if "id" in object_:
+        if "id" in object_ or "documentSelector" in object_:
             return converter.structure(object_, lsp_types.DiagnosticRegistrationOptions)
         else:
             return converter.structure(object_, lsp_types.DiagnosticOptions)
